@@ -57,6 +57,39 @@ def c20(run):
             else:
                 run.fail(op='iana-constant', what=name, input={'constant': name, 'where': where}, observed=val, expected=asg,
                          theorem='C20_iana_constants_assigned_and_distinct')
+        # the same constants under every build tag of the sources
+        for m in re.finditer(r'\("([^"]+)",\s*\("([^"]+)",\s*\("([^"]*(?:""[^"]*)*)",\s*"([^"]*(?:""[^"]*)*)"\)\)\)', b.get('TAGVAR', '')):
+            tag, name, dv, tv = m.groups()
+            run.fail(op='iana-constant-build-tag', what=name, input={'constant': name, 'build': 'go build -tags ' + tag + ' ./iana'}, observed='%s (default build: %s)' % (tv, dv),
+                     expected='the assigned value under every build configuration', theorem='C20_same_constants_under_every_build_tag')
+        # a constant the snapshot does not know, whose name puts it into a registry (it starts with the common prefix of
+        # that registry's known constants in the same file): its value must not be taken inside that registry
+        allc = [(m.group(1), m.group(2), m.group(3), m.group(4)) for m in re.finditer(ENTRY + r',\s*(Some "[^"]+"|None)\)', b.get('ALL', ''))]
+        fam = {}
+        for name, where, val, reg in allc:
+            if reg != 'None':
+                k = (where.split('#')[0], reg)
+                fam[k] = name if k not in fam else os.path.commonprefix([fam[k], name])
+        def reg_of(name, where, reg):
+            if reg != 'None':
+                return reg
+            best = None
+            for (f, r), pre in fam.items():
+                if f == where.split('#')[0] and len(pre) >= 4 and name.startswith(pre) and (best is None or len(pre) > len(best[1])):
+                    best = (r, pre)
+            return 'Some ' + best[0][5:] if best else None
+        seen_pairs = set()
+        for n1, w1, v1, r1 in allc:
+            if r1 != 'None':
+                continue
+            g1 = reg_of(n1, w1, r1)
+            if g1 is None:
+                continue
+            for n2, w2, v2, r2 in allc:
+                if n2 != n1 and v2 == v1 and reg_of(n2, w2, r2) == g1 and (n2, n1) not in seen_pairs:
+                    seen_pairs.add((n1, n2))
+                    run.fail(op='iana-collision', what=n1 + '/' + n2, input={'constants': [n1, n2], 'where': [w1, w2], 'registry': g1}, observed='both ' + v1,
+                             expected='distinct values inside one registry', theorem='C20_iana_constants_assigned_and_distinct')
         for blk in ('COLL', 'BLOCKCOLL'):
             for m in re.finditer(ENTRY + r',\s*' + ENTRY + r'\)\)', b.get(blk, '')):
                 g = m.groups()
@@ -332,6 +365,7 @@ def c03(run):
         run.broke('harness build', o[-1500:])
     else:
         D.correspond(run, 'msg', [], reference_theorem='C03_*_binds (model of Decrypt)')
+        D.correspond(run, 'objhist', [], reference_theorem='C01_object_consume_is_functional / C03_*_binds (one message object over a history: Decrypt reads the nonce material of its own object only)')
         D.oracle(run, 'msgreal', [])
         D.oracle(run, 'realseq', [])
     run.cov['rule'] = ('fake-primitive Encrypt0 / Encrypt messages: IV, Partial IV + Base IV, generated IV; wrong key, wrong external data, mutated encodings (12 classes), Payload inspected after every failed Decrypt; '
